@@ -10,6 +10,8 @@
         :95-118   InitializeComponent
         :137-171  applyPostProcessBeforeInitialization / applyPostProcessAfterInitialization
         :213-231  ResolveAfterInstantiation
+        :232-246  GetEarlyBeanReference (called from factory.go:194-201, 283-296 for a singleton in a circular reference)
+    configure/configure.go:28-52                    AddLoaders / SetLoaders / Initialize (several times on one Configure)
 
   The sort is a PARAMETER `sort : (α → α → Bool) → List α → List α` (comparator first, as sort2.Slice
   takes it).  The theorems of IocProofs.C12 assume only `SortSpec`: the result is a permutation and is
@@ -243,6 +245,7 @@ structure StartLog (α : Type) where
   after : List α := []          -- PostProcessAfterInitialization calls for the probe
   runs : List α := []           -- Run calls
   err : Bool := false           -- App.Run returned an error
+  early : List α := []          -- GetEarlyBeanReference calls of the one early-reference request (`startC` only)
 
 /-- App.run (app.go:78-108; `Facts.runStages`): initConfiguration → initFactory → refresh → callRunners,
     each stage returning on error — restricted to what the three sorted sequences do for a single probe
@@ -264,6 +267,86 @@ def start (sort : (α → α → Bool) → List α → List α) (part : α → P
   | some _ =>
     let cr := callRunners sort part runFails runners
     { loads := lc.1, inst := ri.1, before := ic.1, after := ic.2.1, runs := cr.1, err := cr.2 }
+
+/-! ### early references (a singleton in a circular reference) -/
+
+/-- the loop of GetEarlyBeanReference (delegate:236-244): walks ALL of `componentPostProcessors`, the type
+    assertion to SmartInstantiationAwareBeanPostProcessor is inside the loop; `get p c = none` ⇔ the callback
+    returns an error (the loop returns).  Result: (processors called, `none` = error) -/
+def earlyRefLoop {β : Type} (isSmart : α → Bool) (get : α → β → Option β) :
+    List α → β → List α → List α × Option β
+  | [], cur, log => (log, some cur)
+  | p :: rest, cur, log =>
+    if isSmart p then
+      match get p cur with
+      | none => (log ++ [p], none)
+      | some c => earlyRefLoop isSmart get rest c (log ++ [p])
+    else earlyRefLoop isSmart get rest cur log
+
+/-- PostProcessorRegistrationDelegate.GetEarlyBeanReference (delegate:232-246); `hasInst` is the flag
+    `hasInstantiationAwareComponentPostProcessor` set at registration (delegate:25-33) -/
+def getEarlyBeanReference {β : Type} (hasInst : Bool) (isSmart : α → Bool) (get : α → β → Option β)
+    (procs : List α) (m : β) : List α × Option β :=
+  if hasInst then earlyRefLoop isSmart get procs m [] else ([], some m)
+
+/-- `start` with the probe in a circular reference with a second singleton (probe ⇄ mate, both plain `wire` points).
+    Whichever of the two is created first, both pass ResolveAfterInstantiation before the second one's population
+    asks for the first one — still in creation — and the registry calls its singleton factory (factory.go:194-201 →
+    getEarlyBeanReference, factory.go:283-296): ONE early-reference request, after the probe's
+    ResolveAfterInstantiation and before either InitializeComponent.  An error of a GetEarlyBeanReference callback
+    fails the creation (and the start) before the probe is initialised.
+    `builtinInst`: some built-in processor is InstantiationAware (sets the flag as well). -/
+def startC (sort : (α → α → Bool) → List α → List α) (part : α → Part)
+    (loadRes : α → Step) (resolve : α → Option α) (isInst : α → Bool) (instRes : α → Step)
+    (before after : α → Unit → Res Unit) (runFails : α → Bool)
+    (builtinInst : Bool) (isSmart : α → Bool) (get : α → Unit → Option Unit)
+    (loaders procs runners : List α) : StartLog α :=
+  let g := start sort part loadRes resolve isInst instRes before after runFails loaders procs runners
+  let lc := loadConfigure sort part loadRes loaders
+  let reg := invokeRegister sort part resolve procs []
+  let ri := resolveAfterInstantiation isInst instRes reg.1
+  if lc.2 || reg.2 || ri.2 then g     -- the factory never gets as far as the request
+  else
+    let ge := getEarlyBeanReference (builtinInst || procs.any isInst) isSmart get reg.1 ()
+    match ge.2 with
+    | none => { loads := lc.1, inst := ri.1, early := ge.1, err := true }
+    | some _ => { g with early := ge.1 }
+
+/-! ### one Configure, several Initialize calls -/
+
+/-- the calls a program makes on one `configure.Configure` -/
+inductive ConfOp (α : Type)
+  | set (ls : List α)     -- SetLoaders (configure.go:32-34): replaces
+  | add (ls : List α)     -- AddLoaders (configure.go:28-30): appends to what is there (after an Initialize: the SORTED slice)
+  | init                  -- Initialize (configure.go:40-52)
+deriving Repr
+
+/-- Initialize (configure.go:40-52) with loadConfigure's write-back `c.loaders = SortOrderedComponents(c.loaders)`
+    (configure.go:55).  Result: (the loader slice afterwards, (calls made, error?)) -/
+def confInitialize (sort : (α → α → Bool) → List α → List α) (part : α → Part) (res : α → Step)
+    (cur : List α) : List α × (List (Ev α) × Bool) :=
+  if cur.isEmpty then (cur, ([], false))                      -- configure.go:41-44
+  else
+    let s := sortOrdered sort part cur                        -- configure.go:55
+    (s, twoStepLoop res s [])                                 -- configure.go:57-70
+
+/-- a whole call sequence on one Configure whose loader slice is `cur`; one result per Initialize -/
+def confRun (sort : (α → α → Bool) → List α → List α) (part : α → Part) (res : α → Step) :
+    List (ConfOp α) → List α → List (List (Ev α) × Bool)
+  | [], _ => []
+  | .set ls :: rest, _ => confRun sort part res rest ls
+  | .add ls :: rest, cur => confRun sort part res rest (cur ++ ls)
+  | .init :: rest, cur =>
+    let r := confInitialize sort part res cur
+    r.2 :: confRun sort part res rest r.1
+
+/-- specification vocabulary: the loaders REGISTERED at each Initialize of the sequence, in registration order
+    (SetLoaders replaces, AddLoaders appends; no sorting) -/
+def confRegistered : List (ConfOp α) → List α → List (List α)
+  | [], _ => []
+  | .set ls :: rest, _ => confRegistered rest ls
+  | .add ls :: rest, cur => confRegistered rest (cur ++ ls)
+  | .init :: rest, cur => cur :: confRegistered rest cur
 
 end
 
